@@ -4,6 +4,7 @@ from __future__ import annotations
 
 from .. import formcheck, specs, strategies
 from ..common import Run, ShardResult, run_shards, scratch, verif_seed
+from ..common import thorough  # noqa: E402
 from ..hyp import drive
 
 PROP = "C02"
@@ -85,7 +86,7 @@ def shard(shard, nshards, n, tier, seed):
 
 def run(tier: str) -> int:
     run_ = Run(PROP, tier, "exploration", RULE)
-    n = 8 if tier == "quick" else 200
+    n = 8 if tier == "quick" else thorough(80)
     for part in run_shards(shard, 16, n=n, tier=tier, seed=verif_seed()):
         run_.merge(part)
     run_.assumptions = [
